@@ -3,7 +3,7 @@ CONSTANTS
   Gen <- MCGen
   HelperPath = "codable"
   HelperBug = FALSE
-  MaxRuns = 5
+  MaxRuns = 4
 SPECIFICATION Spec
 INVARIANT Fresh EmitHistory
 PROPERTY Idempotent
